@@ -148,6 +148,14 @@ func ParseStreamCallback(reader io.Reader, c Config, callback ParseCallback) err
 			}
 
 			node.Elements.Add(title, fQty)
+		} else if trimmedLine[0] != c.CommentChar {
+			// an entry before the first heading belongs to no record, but a malformed one is
+			// reported like any other
+			if perr := checkEntry(trimmedLine, lineNumber, line); perr != nil {
+				if stop, err := callback(nil, perr); stop {
+					return err
+				}
+			}
 		}
 	}
 	// a read failure (or an over-long line) must not pass for the end of the file
@@ -158,6 +166,19 @@ func ParseStreamCallback(reader io.Reader, c Config, callback ParseCallback) err
 	if node != nil {
 		_, err = callback(node, nil)
 		return err
+	}
+	return nil
+}
+
+// checkEntry reports what is wrong with an entry line, if anything
+func checkEntry(trimmedLine string, lineNumber int, line string) error {
+	separatorPos := strings.LastIndexAny(trimmedLine, "\t ")
+	if separatorPos == -1 {
+		return NewErrorBadSyntax(lineNumber, line)
+	}
+	sQty := strings.Trim(trimmedLine[separatorPos:], trimQty)
+	if _, err := strconv.ParseFloat(sQty, 64); err != nil {
+		return NewErrorConversion(err, sQty, lineNumber, line)
 	}
 	return nil
 }
